@@ -300,7 +300,8 @@ class ASTTypeBuilder:
         return InputObjectType(
             name=type_def.name.value,
             description=_desc(type_def),
-            fields=[
+            # has to be lazy to support cyclic definition
+            fields=lambda: [
                 self._build_input_field(field_node)
                 for field_node in type_def.fields
             ],
